@@ -6,6 +6,7 @@ package main
 import (
 	"encoding/json"
 	"os"
+	"time"
 
 	"verifharness/internal/ev"
 
@@ -22,6 +23,7 @@ type Ev struct {
 	Err  bool    `json:"err"`
 	Off  int64   `json:"off"`
 	Used []int64 `json:"used"`
+	Hang bool    `json:"hang"`
 }
 
 type Op struct {
@@ -37,9 +39,33 @@ type Hist struct {
 }
 
 type sess struct {
-	g    *uePolicyContainer.IDGenerator
-	w    *ev.Writer
-	snap bool
+	g     *uePolicyContainer.IDGenerator
+	w     *ev.Writer
+	snap  bool
+	dead  bool // the current history was abandoned after a call that did not return
+	hangs int
+}
+
+// call runs one allocator call under a watchdog: a call that does not return within 2 s is
+// logged as hang (no identifier was produced) and the rest of the history is abandoned.
+func (s *sess) call(f func() (int64, error)) (id int64, err error, hang bool) {
+	type res struct {
+		id  int64
+		err error
+	}
+	ch := make(chan res, 1)
+	go func() {
+		id, err := f()
+		ch <- res{id, err}
+	}()
+	select {
+	case r := <-ch:
+		return r.id, r.err, false
+	case <-time.After(2 * time.Second):
+		s.dead = true
+		s.hangs++
+		return 0, nil, true
+	}
 }
 
 func (s *sess) fill(e *Ev) {
@@ -52,6 +78,11 @@ func (s *sess) fill(e *Ev) {
 }
 
 func (s *sess) newGen(min, max int64) {
+	if s.hangs >= 3 {
+		s.w.Close()
+		os.Exit(0) // enough evidence; every leaked call still spins on a CPU
+	}
+	s.dead = false
 	s.g = uePolicyContainer.NewGenerator(min, max)
 	s.w.Emit(Ev{Op: "TraceReset", Used: []int64{}})
 	e := Ev{Op: "New", Min: min, Max: max}
@@ -59,20 +90,37 @@ func (s *sess) newGen(min, max int64) {
 	s.w.Emit(e)
 }
 func (s *sess) alloc() (int64, bool) {
-	id, err := s.g.Allocate()
-	e := Ev{Op: "Allocate", ID: id, Err: err != nil}
-	s.fill(&e)
+	if s.dead {
+		return 0, false
+	}
+	id, err, hang := s.call(s.g.Allocate)
+	e := Ev{Op: "Allocate", ID: id, Err: err != nil || hang, Hang: hang}
+	if hang {
+		e.Off, e.Used = -1, []int64{}
+	} else {
+		s.fill(&e)
+	}
 	s.w.Emit(e)
-	return id, err == nil
+	return id, err == nil && !hang
 }
 func (s *sess) allocR(a, b int64) (int64, bool) {
-	id, err := s.g.Allocate_inRange(a, b)
-	e := Ev{Op: "AllocateInRange", A: a, B: b, ID: id, Err: err != nil}
-	s.fill(&e)
+	if s.dead {
+		return 0, false
+	}
+	id, err, hang := s.call(func() (int64, error) { return s.g.Allocate_inRange(a, b) })
+	e := Ev{Op: "AllocateInRange", A: a, B: b, ID: id, Err: err != nil || hang, Hang: hang}
+	if hang {
+		e.Off, e.Used = -1, []int64{}
+	} else {
+		s.fill(&e)
+	}
 	s.w.Emit(e)
-	return id, err == nil
+	return id, err == nil && !hang
 }
 func (s *sess) free(id int64) {
+	if s.dead {
+		return
+	}
 	s.g.FreeID(id)
 	e := Ev{Op: "FreeID", ID: id}
 	s.fill(&e)
@@ -113,8 +161,11 @@ func record(out string) {
 			case r < 7:
 				a := int64(rng.Intn(int(size) + 3))
 				b := int64(rng.Intn(int(size) + 3))
-				if rng.Intn(3) == 0 { // arguments given as identifiers rather than offsets
+				switch rng.Intn(6) {
+				case 0, 1: // arguments given as identifiers rather than offsets
 					a, b = a+min, b+min
+				case 2: // negative arguments
+					a = -1 - int64(rng.Intn(int(size)+2))
 				}
 				if id, ok := s.allocR(a, b); ok {
 					live[id] = true
